@@ -637,7 +637,8 @@ void csr_diagonal(const CSRMatrix &A, DenseMatrix &D)
         diag = zero;
         unsigned jj;
 
-        while (row_start <= row_end) {
+        // binary search in the half-open range [row_start, row_end)
+        while (row_start < row_end) {
             jj = (row_start + row_end) / 2;
             if (A.j_[jj] == i) {
                 diag = A.x_[jj];
@@ -645,8 +646,7 @@ void csr_diagonal(const CSRMatrix &A, DenseMatrix &D)
             } else if (A.j_[jj] < i) {
                 row_start = jj + 1;
             } else {
-                SYMENGINE_ASSERT(jj > 0);
-                row_end = jj - 1;
+                row_end = jj;
             }
         }
 
